@@ -16,8 +16,8 @@ import Vegeta.Model.DialCompose
       attacker (opt: L | K0 | K1 | H0 | H1 | U0 | U1 | D0 (ttl 0) | D1 (ttl < 0) | C0 (map given) | C1 (empty map) | B | O),
       then two probe dials, `svcHost:svcPort` and `hostC:port`, through the resulting dial function, where the DNS
       answers `hostC ↦ ipA` and the connect-to map is `svcHost:svcPort ↦ hostC:port`, `ipA:port ↦ ipB:port`
-      → `panic` | `ok 0` (transport swapped: no dial function to look at) |
-        `ok 1 <base> | A <what the base function is asked to dial> | B <…>`  (custom base: the address; dialer: the
+      → `panic` | `ok <0|1> <base> | A <what the base function is asked to dial> | B <…>`  (0: transport swapped by
+        H2C(true); the probes then go through a hit of the http2 transport)  (custom base: the address; dialer: the
         listener the address leads to; unix: `unix`)
 -/
 namespace Vegeta.Driver.C18
@@ -105,7 +105,6 @@ def handle (op : String) (args : List String) : Option String :=
     | .panic => pure "panic"
     | .error _ => pure "err"
     | .ok st =>
-      if !st.isHTTP then pure "ok 0" else
       let w : World := { answers := [(hc, [ipA])], fam := [(ipA, .v4), (ipB, .v4)] }
       let m : List (HP × (List HP × Nat)) :=
         [({ host := sh, port := sp }, ([{ host := hc, port := p }], 0)), ({ host := ipA, port := p }, ([{ host := ipB, port := p }], 0))]
@@ -129,7 +128,8 @@ def handle (op : String) (args : List String) : Option String :=
         | .ok (out, _, _) => show1 out
         | _ => "-"
       let clean (x : String) := if x == "" || x == "none" then "-" else x
-      pure ("ok 1 " ++ baseName ++ " | A " ++ clean ra ++ " | B " ++ clean rb)
+      -- transport swapped by H2C(true): the http2 transport dials through the dial function as it was then
+      pure ("ok " ++ (if st.isHTTP then "1 " else "0 ") ++ baseName ++ " | A " ++ clean ra ++ " | B " ++ clean rb)
   | _ => none
 
 end Vegeta.Driver.C18
